@@ -23,8 +23,32 @@ BACKENDS = {
     'cvc5': ['--cvc5'],
     'z3': ['--z3'],
 }
-MEM_KB = 24 * 1024 * 1024
+MEM_KB = 16 * 1024 * 1024
 print_lock = threading.Lock()
+RUNNING = set()
+
+
+class MemBudget:
+    """checks declare mem=<GB> (default 2); at most VERIF_MEM_GB (default 40) GB worth of cbmc runs are in flight"""
+    def __init__(self, total):
+        self.total = total; self.used = 0; self.cv = threading.Condition()
+
+    def acquire(self, n):
+        n = min(n, self.total)
+        with self.cv:
+            while self.used + n > self.total:
+                self.cv.wait()
+            self.used += n
+        return n
+
+    def release(self, n):
+        with self.cv:
+            self.used -= n
+            self.cv.notify_all()
+
+
+MEMBUDGET = MemBudget(int(os.environ.get('VERIF_MEM_GB', '40')))
+WORKDIR = [None, False]
 
 
 def log(*a):
@@ -36,13 +60,18 @@ class Fault(Exception):
     """machinery fault -> exit 2"""
 
 
-def run(cmd, timeout=None, cwd=None, mem=True):
+def run(cmd, timeout=None, cwd=None, mem=True, tmpdir=None):
     pre = ('ulimit -v %d; ' % MEM_KB) if mem else ''
+    if tmpdir:
+        # cbmc --external-sat-solver leaves multi-GB CNF files in $TMPDIR when it is killed: keep them inside the work dir
+        pre += 'export TMPDIR=%s; ' % shlex.quote(tmpdir)
     t0 = time.time()
     p = subprocess.Popen(['bash', '-c', pre + 'exec ' + ' '.join(shlex.quote(c) for c in cmd)], cwd=cwd,
                          stdout=subprocess.PIPE, stderr=subprocess.STDOUT, start_new_session=True)
+    RUNNING.add(p.pid)
     try:
         out, _ = p.communicate(timeout=timeout)
+        RUNNING.discard(p.pid)
         return p.returncode, out.decode('utf-8', 'replace'), time.time() - t0
     except subprocess.TimeoutExpired:
         try:
@@ -388,7 +417,14 @@ def solve(chk, r, tier, inline_all=False, loop_contracts=None, unwind_override=N
     for bi, be in enumerate(backends):
         cmd = ['cbmc', inst] + flags + BACKENDS[be]
         t_be = tmo if bi == len(backends) - 1 else min(tmo, int(chk.get('first_timeout', tier) or 90))
-        rc, out, secs = run(cmd, timeout=t_be)
+        need = MEMBUDGET.acquire(int(chk.get('mem', tier) or 2))
+        try:
+            rc, out, secs = run(cmd, timeout=t_be, tmpdir=r.dir)
+        finally:
+            MEMBUDGET.release(need)
+        for f in os.listdir(r.dir):
+            if f.startswith('external-sat'):
+                os.unlink(os.path.join(r.dir, f))
         r.seconds += secs
         r.cmds.append(' '.join(['cbmc', 'inst.gb'] + flags + BACKENDS[be]))
         last = out
@@ -423,7 +459,7 @@ def solve(chk, r, tier, inline_all=False, loop_contracts=None, unwind_override=N
 
 def trace_witness(r, prop, tmo=900):
     cmd = ['cbmc', r.inst] + r.flags + ['--trace', '--property', prop]
-    rc, out, _ = run(cmd, timeout=tmo)
+    rc, out, _ = run(cmd, timeout=tmo, tmpdir=r.dir)
     if rc is None:
         return None, 'trace timed out'
     wit = {}
@@ -498,11 +534,27 @@ def run_property(args):
     outdir = os.path.join(VERIF, 'out', prop)
     os.makedirs(outdir, exist_ok=True)
     rc = 2
+    import signal
+    def _term(signum, frame):
+        for pid in list(RUNNING):
+            try:
+                os.killpg(pid, 9)
+            except Exception:
+                pass
+        if not args.keep:
+            shutil.rmtree(work, ignore_errors=True)
+        print('INCONCLUSIVE property=%s (interrupted)' % prop, flush=True)
+        os._exit(2)
+    signal.signal(signal.SIGTERM, _term)
     try:
         rc = _run_property(args, prop, tier, work, outdir, t0)
     except Fault as e:
         log('FAULT: %s' % e)
         log('INCONCLUSIVE property=%s (machinery fault, exit 2)' % prop)
+        rc = 2
+    except KeyboardInterrupt:
+        log('INCONCLUSIVE property=%s (interrupted)' % prop)
+        os.system('pkill -9 -P %d >/dev/null 2>&1' % os.getpid())
         rc = 2
     finally:
         if not args.keep:
@@ -542,7 +594,11 @@ def _run_property(args, prop, tier, work, outdir, t0):
             if args.only and not re.search(args.only, c.id):
                 continue
             kf = [k for k in kfs if k['unit'] == u.name and k['check'] == c.id]
-            for v in c.variants(tier):
+            vs = c.variants(tier)
+            if args.vary and vs != [None]:
+                name, vals = args.vary.split(':')
+                vs = [(name, x) for x in expand_range(vals)]
+            for v in vs:
                 if kf:
                     jobs.append((c, v, 'excl', kf[0]))
                     jobs.append((c, v, 'carve', kf[0]))
@@ -607,12 +663,15 @@ def run_lemmas(units, prop):
     out = []
     seen = set()
     for u in units:
-        for lf in u.cfg.get('lemmas', []):
+        for ent in u.cfg.get('lemmas', []):
+            lf = ent if isinstance(ent, str) else ent['file']
+            solvers = ['z3', 'cvc5'] if isinstance(ent, str) else ent.get('solvers', ['z3', 'cvc5'])
             if lf in seen:
                 continue
             seen.add(lf)
             p = os.path.join(VERIF, lf)
-            for solver, cmd in (('z3', ['z3', '-T:120', p]), ('cvc5', ['cvc5', '--incremental', '--tlimit=120000', p])):
+            cmds = {'z3': ['z3', '-T:120', p], 'z3-new': ['z3-new', '-T:120', p], 'cvc5': ['cvc5', '--incremental', '--tlimit=120000', p]}
+            for solver, cmd in [(sv, cmds[sv]) for sv in solvers]:
                 rc, o, secs = run(cmd, timeout=150, mem=False)
                 answers = [l.strip() for l in o.split('\n') if l.strip() in ('sat', 'unsat', 'unknown')]
                 res = 'unsat' if answers and all(a == 'unsat' for a in answers) else ('sat' if 'sat' in answers else 'unknown')
@@ -727,7 +786,7 @@ def scan_assumptions(units, results):
 
 
 def write_evidence(args, prop, tier, units, results, lemmas, violations, known, inconclusive, wall):
-    if args.no_evidence or args.only or args.unit or args.skip_unit:
+    if args.no_evidence or args.only or args.unit or args.skip_unit or args.vary:
         return
     enforced = set((r.check.unit.name, r.check.fn) for r in results if r.status == 'ok')
     used = set()
@@ -800,6 +859,7 @@ def main():
     ap.add_argument('--only')
     ap.add_argument('--unit')
     ap.add_argument('--skip-unit')
+    ap.add_argument('--vary', help='override the vary= list of the selected checks, e.g. DCASE:5 (debugging)')
     ap.add_argument('--jobs', type=int, default=int(os.environ.get('VERIF_JOBS', '16')))
     ap.add_argument('--keep', action='store_true')
     ap.add_argument('--replay')
